@@ -195,7 +195,30 @@ func hexGroup(r *fw.Rand) string {
 
 // genDomain returns (as written, class).
 func genDomain(r *fw.Rand) (string, string) {
-	switch r.Weighted([]int{8, 3, 2, 3, 1}) {
+	switch r.Weighted([]int{8, 3, 2, 3, 1, 1}) {
+	case 5:
+		// Long host names: total length and label length at and around the limits (63 per label,
+		// 255 in total) and around 128 (a limit that applies to local parts, not to domains).
+		total := r.Pick2([]int{62, 63, 64, 65, 126, 127, 128, 129, 130, 131, 180, 253, 254, 255, 256})
+		var b strings.Builder
+		for b.Len() < total {
+			left := total - b.Len()
+			ll := r.Range(1, 63)
+			if r.Chance(1, 4) {
+				ll = 63
+			}
+			if ll >= left-1 {
+				ll = left
+			}
+			if ll > 63 && r.Chance(3, 4) {
+				ll = 63
+			}
+			b.WriteString(r.Letters(ll, "abcdefghijklmnopqrstuvwxyzABCDEFGH0123456789"))
+			if b.Len() < total-1 {
+				b.WriteByte('.')
+			}
+		}
+		return b.String(), "host-long"
 	case 0:
 		n := r.Range(1, 4)
 		ls := make([]string, n)
